@@ -37,6 +37,14 @@ def gen_case(rng, size=None, profile=None):
     nobs = rng.choice([1, 2, 2, 3, 4])
     n = size or rng.choice([6, 10, 16, 24, 40, 60])
     ops = []
+    if profile == "wrapless" or rng.random() < 0.1:
+        # start near the 24-bit wrap of the Observe counter (or anywhere)
+        for r in range(nres):
+            if rng.random() < 0.7:
+                ops.append("init:%d:%d" % (r, rng.choice([16777215, 16777214, 16777210, 16777216 + 5,
+                                                           8388607, 8388608, 0, 1, rng.randrange(1 << 24)])))
+    ninit = len(ops)
+    n += ninit
     live = []            # (c, r, q, tok) registrations we believe are live (best effort)
 
     def reg(kind="reg"):
@@ -149,6 +157,7 @@ class Trace:
         self.dump = ""
         self.datagrams = []     # dicts for every X event
         self.steps = 0
+        self.obs0 = {}          # resource -> initial observe value (coap_persist_set_observe_num)
 
 
 def translate(case_line, trace_line):
@@ -215,6 +224,12 @@ def translate(case_line, trace_line):
                     new_group("L:%d" % int(f[1]), cur_hop)
             elif op == "del":
                 pending_del = int(f[1])
+            elif op == "init":
+                if t.groups:
+                    t.ok = False
+                    t.why = "init after the first op"
+                else:
+                    t.obs0[int(f[1])] = int(f[2])
             continue
         if tk.startswith("S"):
             new_group("I:" + _ca(tk[1:]), cur_hop)
@@ -323,9 +338,13 @@ def translate(case_line, trace_line):
     return t
 
 
+def modes_str(t):
+    return ",".join("%d/%d" % (m, t.obs0.get(i, 2)) for i, m in enumerate(t.modes))
+
+
 def model_line(t):
     return "c11m %d %d %d %s %s" % (t.nstart, t.consts.get("non", 5), t.consts.get("fail", 1),
-                                    ",".join(str(m) for m in t.modes),
+                                    modes_str(t),
                                     " ".join(g[0] for g in t.groups))
 
 
@@ -347,5 +366,5 @@ def acceptor_line(t, strict):
         parts.append(g[0])
         parts.extend(g[1])
     return "c11a %d %d %d %d %s %s" % (t.nstart, t.consts.get("non", 5), t.consts.get("fail", 1),
-                                       1 if strict else 0, ",".join(str(m) for m in t.modes),
+                                       1 if strict else 0, modes_str(t),
                                        " ".join(parts))
